@@ -67,6 +67,7 @@
 #include <cmath>
 #include <fcntl.h>
 #include <functional>
+#include <iomanip>
 #include <memory>
 #include <sys/mman.h>
 #include <sys/stat.h>
@@ -271,17 +272,35 @@ static void spreadCase(vh::Out &out, const std::string &id, vh::Rng &g, bool exa
 //
 // spreadCoordX/Y on adversarial demand/limit mixes, every returned float compared EXACTLY with the Lean
 // model ColoVerif/Model/SpreadF.lean (op `spreadf`, answer `coordsf` = canonical dyadic of every float).
-// Families: witness (fixed inputs, case f0..f3), small (small demands), mixed (a few huge demands up to
-// INT_MAX among tiny ones; int -> float conversion inexact above 2^24), drift (one cell holding almost the
-// whole demand of a bin whose total is just below a power of two, followed in target order by demand-1 and
-// demand-2 cells: the running share `dem` is rounded up at every addition and ends well above 1).
-// Limits up to 2^22 in magnitude.  No oracle failure is raised here: the bin-level excursions are what the
-// model reproduces and the theorems of Properties/C06.lean bound (`spreadF_enclosure`); they are counted:
-//   spreadf_coord_{strictly_inside,on_edge,outside}_bin, spreadf_round_outside_bin_by_more_than_half
-//   (round(v) beyond [lo - 1/2, hi + 1/2], i.e. the excursion survives the export rounding of a cell of even
-//   width) and spreadf_round_outside_area_by_more_than_half (the same against the placement area: what would
-//   be an exposed centre outside the rows' bounding box — proposed known finding KF-C06-3, see
-//   tools/props/C06.py; also counted as `known_finding_candidate:KF-C06-3`).
+// Families: witness (the inputs of corpus/C06/kf3-spread-drift.txt, replayed first as cases f0, f1, ...),
+// small (small demands), mixed (a few huge demands up to INT_MAX among tiny ones; int -> float conversion
+// inexact above 2^24), drift (one cell holding almost the whole demand of a bin whose total is just below a
+// power of two, followed in target order by demand-1 and demand-2 cells: the running share `dem` is rounded up
+// at every addition and ends well above 1 — before fixes/c06-spread-clamp.diff the last cells then landed
+// outside the bin, up to 24.9 units).  Limits up to 2^22 in magnitude.
+// Direct oracle (theorem spreadF_inside_closed_bin / ubF_every_cell_inside): every positive-demand cell of a bin
+// gets a finite float in the CLOSED bin [lo, hi]; every cell in no bin gets a float in the placement area.
+// Counted: spreadf_coord_{strictly_inside,on_edge_of}_bin.
+struct SpreadWitness { int lo, hi; std::vector<int> demand; };
+static std::vector<SpreadWitness> spreadWitnesses;
+// lines "bin <lo> <hi> ; demands <d | dxk>... ; free text"
+static void loadSpreadWitnesses(const std::string &path) {
+  for (auto &l : vh::readLines(path)) {
+    std::istringstream is(l);
+    std::string kw;
+    is >> kw;
+    if (kw != "bin") continue;
+    SpreadWitness w;
+    std::string t;
+    is >> w.lo >> w.hi >> t >> t;  // ";" "demands"
+    while (is >> t && t != ";") {
+      size_t x = t.find('x');
+      int d = atoi(t.substr(0, x).c_str()), k = x == std::string::npos ? 1 : atoi(t.c_str() + x + 1);
+      for (int i = 0; i < k; ++i) w.demand.push_back(d);
+    }
+    if (w.lo < w.hi && !w.demand.empty()) spreadWitnesses.push_back(w);
+  }
+}
 static void spreadFCase(vh::Out &out, const std::string &id, long long idx, vh::Rng &g) {
   int x0 = 0, y0 = 0, W = 1, H = 1, binSize = 1, n = 1;
   std::vector<int> demand;
@@ -289,13 +308,12 @@ static void spreadFCase(vh::Out &out, const std::string &id, long long idx, vh::
   std::string family;
   bool oneBin = false;
   auto indexTargets = [&]() { target.resize(n); for (int i = 0; i < n; ++i) target[i] = (float)i; };
-  if (idx < 4) {
+  if (idx < (long long)spreadWitnesses.size()) {
     family = "witness";
     oneBin = true;
-    if (idx == 0) { demand = {4514511, 2, 1, 9, 20, 3, 95, 5, 1, 1, 2, 1}; x0 = 62417; W = 133125 - 62417; }
-    else if (idx == 1) { demand = {2, 1, 19, 2, 7, 2, 2, 5, 8886360, 1, 2, 5}; x0 = 92054; W = 93690 - 92054; }
-    else if (idx == 2) { demand = {16776988, 1, 1, 1, 1, 1, 1, 2, 2, 2}; x0 = 0; W = 4000000; }
-    else { demand = {16776400}; for (int i = 0; i < 200; ++i) demand.push_back(1); for (int i = 0; i < 100; ++i) demand.push_back(2); x0 = 0; W = 1048576; }
+    const SpreadWitness &w = spreadWitnesses[idx];
+    demand = w.demand;
+    x0 = w.lo; W = w.hi - w.lo;
     n = (int)demand.size();
     y0 = x0; H = W;  // same interval on both axes
     binSize = W + 1;
@@ -404,28 +422,35 @@ static void spreadFCase(vh::Out &out, const std::string &id, long long idx, vh::
     out.impl << im.str() << "\n";
     double amin = axis == 0 ? pa.minX : pa.minY, amax = axis == 0 ? pa.maxX : pa.maxY;
     bool nt = false;
+    std::vector<char> inBin(n, 0);
     for (int i = 0; i < bx; ++i)
       for (int j = 0; j < by; ++j) {
-        double lo = axis == 0 ? hp.binLimitX(i) : hp.binLimitY(j);
-        double hi = axis == 0 ? hp.binLimitX(i + 1) : hp.binLimitY(j + 1);
+        int lo = axis == 0 ? hp.binLimitX(i) : hp.binLimitY(j);
+        int hi = axis == 0 ? hp.binLimitX(i + 1) : hp.binLimitY(j + 1);
         int pos = 0;
         for (int c : cellsOf[i][j]) {
+          inBin[c] = 1;
           if (demand[c] <= 0) continue;
           ++pos;
-          double v = res[c];
-          if (v > lo && v < hi) out.count("spreadf_coord_strictly_inside_bin");
-          else if (v >= lo && v <= hi) out.count("spreadf_coord_on_edge_of_bin");
-          else out.count("spreadf_coord_outside_bin");
-          double r = std::round(v);
-          if (!(r >= lo - 0.5 && r <= hi + 0.5)) out.count("spreadf_round_outside_bin_by_more_than_half");
-          if (!(r >= amin - 0.5 && r <= amax + 0.5)) {
-            out.count("spreadf_round_outside_area_by_more_than_half");
-            out.count("known_finding_candidate:KF-C06-3");
-            if (out.dist["known_finding_candidate:KF-C06-3"] <= 3) out.sample("KF-C06-3 candidate " + id + ": " + op.str().substr(0, 600));
-          }
+          float v = res[c];
+          if (!(std::isfinite(v) && v >= (float)lo && v <= (float)hi)) {
+            std::ostringstream w;
+            w << "spreadCoord" << (axis ? "Y" : "X") << ": cell " << c << " (demand " << demand[c] << ") of bin [" << lo << "," << hi
+              << "] got " << dyadic(v) << " (mantissa exp2) = " << std::setprecision(12) << (double)v << ", outside the closed bin ("
+              << bx * by << " bins, " << cellsOf[i][j].size() << " cells in this bin)";
+            out.fail(id, w.str(), op.str());
+          } else if (v > (float)lo && v < (float)hi) out.count("spreadf_coord_strictly_inside_bin");
+          else out.count("spreadf_coord_on_edge_of_bin");
         }
         if (pos >= 2) nt = true;
       }
+    for (int c = 0; c < n; ++c) {
+      if (inBin[c]) continue;
+      out.count("spreadf_cells_in_no_bin");
+      if (!(res[c] >= (float)amin && res[c] <= (float)amax))
+        out.fail(id, std::string("spreadCoord") + (axis ? "Y" : "X") + ": cell " + std::to_string(c) + " (in no bin) got " + dyadic(res[c]) +
+                         " (mantissa exp2), outside the placement area", op.str());
+    }
     if (nt) out.nontrivial(vh::hashStr(op.str()));
   }
   out.count("spreadf_cases");
@@ -1357,7 +1382,8 @@ int main(int argc, char **argv) {
              "approx: |float - rat| <= 2^-18(|lo|+|hi|+1)); non-trivial = a bin with >= 2 cells, distinct by op text. "
              "(a'') spreadCoordX/Y against the binary32 model SpreadF, every float compared exactly (families small/mixed/drift/witness, "
              "limits up to 2^22, demands up to INT_MAX, up to 301 cells per bin; non-trivial = a bin with >= 2 positive-demand cells; "
-             "measured: spreadf_family_*, spreadf_coord_*_bin, spreadf_round_outside_*_by_more_than_half). "
+             "oracle: every positive-demand cell of a bin in the closed bin, every other cell in the placement area; witnesses of "
+             "corpus/C06/kf3-spread-drift.txt replayed first; measured: spreadf_family_*, spreadf_coord_*_bin, spreadf_cells_in_no_bin). "
              "(b) Circuit::placeGlobal with callback on vc::genCircuit circuits whose rows are all >= 4 row heights wide (nets: generic / none / "
              "degree 1 / one cell per net / fixed cells only), parameters over all efforts/net models/cost models/window sizes/blendings, "
              "penalty.updateFactor over (1,2) with step limits up to the default 400, stop tolerances down to 0, distance update factors "
@@ -1399,6 +1425,7 @@ int main(int argc, char **argv) {
   }
   // (a'') binary32-exact spreading
   long long nf = a.thorough() ? 12000 : (a.search() ? 1500 : 1500);
+  if (!a.corpus.empty()) loadSpreadWitnesses(a.corpus + "/kf3-spread-drift.txt");
   for (long long i = 0; i < nf; ++i) {
     if (only >= 0 && !(onlyKind == "f" && only == i)) continue;
     vh::Rng g = vh::Rng::forCase(a.seed, 4000000 + i);
